@@ -11,6 +11,6 @@ git apply $SEED/patch.diff || { echo "PATCH DOES NOT APPLY"; git -C /repo worktr
 /venv/bin/python $SEED/demo.py >/dev/null 2>&1; echo "demo with change: exit $?"
 cd /verif
 for P in "$@"; do
-  COMA_REPO=$WT timeout 900 ./vcheck $P --tier quick 2>&1 | grep -v "^WARNING" | tail -6; echo "check $P exit=$?"
+  COMA_REPO=$WT timeout 1500 ./vcheck $P --tier quick 2>&1 | grep -v "^WARNING" | tail -6; echo "check $P exit=$?"
 done
 git -C /repo worktree remove --force $WT
